@@ -154,6 +154,7 @@ func replayC01MapOrder(input string) (bool, string) {
 }
 
 func runC01Deep(c *Ctx) {
+	wireNilDict = true
 	r := c.R
 	scale := 1
 	if c.Thorough {
@@ -184,9 +185,9 @@ func runC01Deep(c *Ctx) {
 		key := tag + " " + wire(objs)
 		c.Case("d:"+key, true)
 		out := emitFmt(tag, objs)
-		ok, d := oracleRoundTrip(tag, objs)
+		ok, vkey, d := oracleRoundTripK(tag, objs)
 		if !ok {
-			c.Violate("roundtrip", "roundtrip", d, key)
+			c.Violate("roundtrip", vkey, d, key)
 		}
 		emitParse(append(append([]byte{'['}, out...), ']'))
 	}
@@ -273,7 +274,7 @@ func runC01Deep(c *Ctx) {
 	// 4. neighbourhoods of integers, references, reals and the name /R
 	atoms := []pdf.Object{pdf.Integer(1), pdf.Integer(-2), pdf.Integer(0), pdf.NewReference(3, 0), pdf.NewReference(1<<24-1, 65535),
 		pdf.Name("R"), pdf.Name(""), pdf.Real(1), pdf.Real(0.5), nil, pdf.Boolean(true), pdf.String("R"), pdf.String(""),
-		pdf.Array{}, pdf.Array{pdf.Integer(1), pdf.Integer(2)}, pdf.Dict{}, pdf.Dict{"R": pdf.Integer(1)}, pdf.Array(nil)}
+		pdf.Array{}, pdf.Array{pdf.Integer(1), pdf.Integer(2)}, pdf.Dict{}, pdf.Dict{"R": pdf.Integer(1)}, pdf.Array(nil), pdf.Dict(nil), pdf.String(""), pdf.String(nil)}
 	for _, a := range atoms {
 		for _, b := range atoms {
 			for _, tag := range []string{"-", "p"} {
